@@ -1089,7 +1089,10 @@ LEVEL_TEXT = ('Coq theorems (closed under the global context) over the executabl
               'fields are single lines, names distinct, mandatory fields present for clean inputs (C05_fields_single_line); record ids are unique when uuid4 '
               'is injective (C05_ids_unique: creation numbers of written and pending records stay pairwise distinct) and every record names a warcinfo '
               'record written to the same file (C05_points_at_warcinfo).')
-LEVEL_NOTE = ('Trusted: Coq kernel + vm_compute; the hand-written model and this harness; oracles for SHA-1/gzip/uuid4/clock; the client event order. '
+LEVEL_NOTE = ('The event histories the theorems quantify over include FAILED appends (HWriteFailed: the append at the end of a request or response '
+              'failed with an I/O error and was rolled back - state as before by C06_io_error_restores - and the session ended); the recorder runs of '
+              'every check inject such failures (a record whose pieces cannot all be read) and the model must reproduce the files byte for byte. '
+              'Trusted: Coq kernel + vm_compute; the hand-written model and this harness; oracles for SHA-1/gzip/uuid4/clock; the client event order. '
               'That the bytes the HTTP client reports before begin_response are exactly the header block(s) is carried by the correspondence (real client on a '
               'scripted connection, ground truth from the generator), not by a theorem (it is C04/C08 territory). C05_archive_valid / C05_one_member_per_record '
               'take the kept earlier content as a serialisation of well-formed records rather than as "parses strictly". '
